@@ -5,7 +5,7 @@ PROPS = {
         "quick": [{"module": "MC_C01", "cfg": "MC_C01_quick.cfg", "nprimes": 6},
                   {"module": "MC_PROD", "cfg": "MC_PROD_quick.cfg", "nprimes": 10}],
         "level_text": "Exhaustive TLC exploration of every configuration of the product operations on an exact model (proves the pointwise-product identity for all evaluation points via a unisolvent lattice), bound to the code by replaying every explored behaviour and comparing all observables at 1e-8.",
-        "level_note": "Inputs range over exact rational menus (D<=2 quick / D<=3 thorough, R<=3); code conformance is established on the explored behaviours only; trusted: TLC, CRT decoding, float64 rounding below tolerance on cond<1e2 inputs.",
+        "level_note": "Inputs range over exact rational menus (D<=2 quick / D<=3 thorough, R1,R2<=3 plus one D=4, 2x5 instance; product() alone for every batch size 1..9 quick / 1..17 thorough; one instance on badly scaled matrices with condition numbers up to 4e3; one instance repeats the product after normalize() of the measure); code conformance is established on the explored behaviours only; trusted: TLC, CRT decoding, float64 rounding below tolerance on cond<1e2 inputs.",
         "explanation": "TLC enumerates every configuration (measure kind x constructor mode x cache state x factor kind x "
                        "entry point x update_full x batch sizes) and proves pointwise multiplication on the unisolvent "
                        "lattice for the specification; each behaviour is replayed into the real library and every "
@@ -13,7 +13,7 @@ PROPS = {
     },
 }
 
-_LN = ("Inputs range over exact rational menus (dimensions and batch sizes as listed in the instance cfg); code conformance is "
+_LN = ("Inputs range over exact rational menus (dimensions and batch sizes as listed in the instance cfg; *_aniso.cfg instances use badly scaled matrices with condition numbers 5e2..4e3, MC_MUT instances repeat the call after an operand was mutated in place); code conformance is "
        "established on the explored behaviours only; trusted: TLC, CRT decoding, float64 rounding below tolerance on cond<1e2 inputs.")
 
 PROPS["C05"] = {
